@@ -954,6 +954,23 @@ func (g *gen) derivePlus(p *pattern) string {
 		default:
 			return renameTok(minus)
 		}
+	case kGenDecl:
+		// add or remove the parentheses of the declaration (recorded only as positions being valid), possibly with
+		// another specification next to the old one
+		trim := strings.TrimRight(minus, "\n")
+		for _, kw := range []string{"var ", "const ", "type "} {
+			if strings.HasPrefix(trim, kw) && !strings.HasPrefix(trim, kw+"(") && g.chance(0.3) {
+				extra := ""
+				if g.chance(0.5) {
+					extra = map[string]string{"var ": "\n\taddedV = 30", "const ": "\n\taddedC = 30", "type ": "\n\taddedT int"}[kw]
+				}
+				cand := kw + "(\n\t" + strings.ReplaceAll(trim[len(kw):], "\n", "\n\t") + extra + "\n)\n"
+				if parses("package p\n" + elisionRe.ReplaceAllString(strings.ReplaceAll(cand, "...", "dts"), "${1}dts${2}")) || parses("package p\n"+cand) {
+					return cand
+				}
+			}
+		}
+		return renameTok(minus)
 	default:
 		return renameTok(minus)
 	}
@@ -1435,6 +1452,10 @@ func (g *gen) fileWith(p *pattern, frags []string, pkg string, imports []string)
 		if g.chance(0.3) {
 			sb.WriteString(g.funcDecl(fmt.Sprintf("other%d", nf), 2) + "\n")
 		}
+	}
+	if p.kind == kGenDecl && g.chance(0.4) {
+		// the pattern's instance stays the last declaration of the file
+		return sb.String()
 	}
 	if g.chance(0.5) {
 		sb.WriteString(g.genDecl() + "\n")
